@@ -692,6 +692,31 @@ def clearSearch (pts : List V3) (sim : List ITri) (obs ceil : V3) : Option (List
       let ix := sortBySide ((orientedTris pts sim).map (itriOf ql))
       if clearOk pts sim obs ceil ql ix then some (fixHand ql) else none)
 
+/-- the six sides in the order of the passes' names (front, back, top, bottom, left, right in `FACE_MAP` numbers) -/
+def sides6 : List Nat := [4, 5, 1, 0, 2, 3]
+
+/-- the two hull triangles of side `s` -/
+def pairOf (Q : Hex) (hv : Nat → ITri × ITri) (s : Nat) : List Tri := [triP Q (hv s).1, triP Q (hv s).2]
+
+/-- the halves of side `s` read off a list of twelve triangles sorted by side (front, back, top, bottom, left, right) -/
+def hvOf (ix : List ITri) (s : Nat) : ITri × ITri :=
+  let k := sides6.idxOf s
+  (ix.getD (2 * k) (0, 0, 0), ix.getD (2 * k + 1) (0, 0, 0))
+
+/-- validator of the hull oracle's answer against the block (request `c18.contract`): with the input numbering `pts` taken
+    as the block's numbering, the oriented simplices are exactly the two halves of each of the six sides (either diagonal,
+    any vertex order, twelve different triangles), the corners are pairwise distinct to TOL, and triangles of different
+    sides are more than 60° apart.  Acceptance implies the hypotheses of `T_C18_returns_relabelling`
+    (theorem `T_C18_contract_check`). -/
+def contractOk (pts : List V3) (sim : List ITri) : Bool :=
+  let Q := Hex.ofList pts
+  let hv := hvOf (sortBySide ((orientedTris pts sim).map (itriOf pts)))
+  pts.length == 8 && sepOk Q && sides6.all (fun s => halves s (hv s).1 (hv s).2)
+    && (orientedTris pts sim).isPerm (sides6.flatMap (pairOf Q hv))
+    && decide ((sides6.flatMap (pairOf Q hv)).Nodup)
+    && sides6.all (fun s => sides6.all (fun s' => s == s' ||
+        (pairOf Q hv s).all (fun X => (pairOf Q hv s').all (fun Y => decide (tooSteep X Y)))))
+
 /-! ## line protocol -/
 
 def parsePts? (s : String) : Option (List V3) :=
@@ -781,6 +806,12 @@ def handle (op : String) (args : List String) : Option String :=
       else match clearSearch pts tris obs ceil with
         | some out => some ("clear " ++ showNatList (indicesIn pts out))
         | none => some "unclear"
+  | "c18.contract", [pts, tris] => do
+      -- does the hull oracle's answer satisfy the contract of `T_C18_returns_relabelling` for this block?
+      let pts ← parsePts? pts
+      let tris ← parseTris? tris
+      if pts.length ≠ 8 ∨ tris.any (fun t => t.1 ≥ 8 ∨ t.2.1 ≥ 8 ∨ t.2.2 ≥ 8) then none
+      else some (if contractOk pts tris then "contract" else "nocontract")
   | "c18.hull", [eps, pts, tris] => do
       let eps ← parseRat? eps
       let pts ← parsePts? pts
